@@ -26,6 +26,7 @@ import (
 )
 
 type conf struct {
+	pileUp bool // park the persister at its idle point (unsafe batches): every batch of the history is still an unpersisted segment when it resumes and one round merges them in memory
 	gated  bool // park the first merge task (public event callback) and let the following operations land while it is in flight
 	name   string
 	disk   bool
@@ -73,6 +74,8 @@ func confs(quick bool) []conf {
 		{name: "scorch-disk-partial-merge", disk: true, scorch: true, itype: scorch.Name, kv: scorch.Name, cfg: cfgWith("scorchMergePlanOptions", bx.PartialMergePlan)},
 		{name: "scorch-disk-merge-gated", gated: true, disk: true, scorch: true, itype: scorch.Name, kv: scorch.Name, cfg: cfgWith("scorchMergePlanOptions", bx.AggressiveMergePlan)},
 		{name: "scorch-disk-unsafe-2workers", disk: true, scorch: true, unsafe: true, itype: scorch.Name, kv: scorch.Name,
+			cfg: cfgWith("unsafe_batch", true, "scorchPersisterOptions", map[string]interface{}{"NumPersisterWorkers": 2, "MaxSizeInMemoryMergePerWorker": 1})},
+		{name: "scorch-disk-unsafe-2workers-history-merged-in-memory-in-one-round", pileUp: true, disk: true, scorch: true, unsafe: true, itype: scorch.Name, kv: scorch.Name,
 			cfg: cfgWith("unsafe_batch", true, "scorchPersisterOptions", map[string]interface{}{"NumPersisterWorkers": 2, "MaxSizeInMemoryMergePerWorker": 1})},
 		{name: "upsidedown-gtreap", itype: upsidedown.Name, kv: gtreap.Name},
 		{name: "upsidedown-boltdb", disk: true, itype: upsidedown.Name, kv: "boltdb"},
@@ -175,7 +178,7 @@ func Run(r *mc.Run) {
 			d = depth - 1 // quick tier: on-disk variants one level shallower
 		}
 		cops := ops
-		if c.name == "scorch-disk-partial-merge" || c.gated {
+		if c.name == "scorch-disk-partial-merge" || c.gated || c.pileUp {
 			cops, d = partialAlphabet(r.Quick()), depth+1
 		}
 		t0 := time.Now()
@@ -221,6 +224,12 @@ func execPath(r *mc.Run, c conf, ops []op, path []int, rep map[string]any) (stri
 		cb = g.Name()
 		defer g.Free()
 	}
+	if c.pileUp {
+		g = bx.AcquireGateFor(scorch.EventKindPurgerCheck)
+		cb = g.Name()
+		defer g.Free()
+		g.Arm() // the persister parks the first time it goes idle, i.e. right after the index is created
+	}
 	idx, err := c.openWith(dir, true, cb)
 	if err != nil {
 		r.Violation("open:"+c.name, fmt.Sprintf("%v: create failed: %v", rep, err), rep)
@@ -234,8 +243,11 @@ func execPath(r *mc.Run, c conf, ops []op, path []int, rep map[string]any) (stri
 			idx.Close()
 		}
 	}()
-	if g != nil {
+	if c.gated {
 		g.Arm()
+	}
+	if c.pileUp {
+		g.WaitParked(3 * time.Second)
 	}
 	m := lww.New()
 	lastKind := "init"
@@ -263,6 +275,9 @@ func execPath(r *mc.Run, c conf, ops []op, path []int, rep map[string]any) (stri
 			if !c.disk {
 				return "", false
 			}
+			if c.pileUp {
+				g.Release() // the persister resumes: the history so far is merged in memory and persisted
+			}
 			if c.unsafe && !bx.Persisted(idx, 10*time.Second) {
 				r.Cap("unsafe-batch index did not persist within 10s before a reopen; path skipped")
 				return "", false
@@ -284,6 +299,8 @@ func execPath(r *mc.Run, c conf, ops []op, path []int, rep map[string]any) (stri
 			lastKind = "reopen"
 		}
 		switch {
+		case c.pileUp:
+			// nothing to wait for: unsafe batches return once introduced, the persister is parked
 		case g != nil && !g.IsParked():
 			g.WaitParkedOrQuiet(idx, 2*time.Second)
 		case g != nil:
@@ -295,13 +312,23 @@ func execPath(r *mc.Run, c conf, ops []op, path []int, rep map[string]any) (stri
 	if g != nil && g.IsParked() {
 		// observe the state while the merge is still in flight, then let it be introduced
 		r.Eval(1)
-		r.Count("histories_observed_with_a_merge_in_flight", 1)
+		when := "while-merge-in-flight"
+		if c.pileUp {
+			when = "while-nothing-is-persisted"
+			r.Count("histories_observed_with_every_batch_unpersisted", 1)
+		} else {
+			r.Count("histories_observed_with_a_merge_in_flight", 1)
+		}
 		if bad := m.Check(idx, ids, keys); len(bad) > 0 {
-			r.Violation(fmt.Sprintf("lww:%s:while-merge-in-flight", c.name), fmt.Sprintf("%v: %s", rep, strings.Join(bad, "; ")), rep)
+			r.Violation(fmt.Sprintf("lww:%s:%s", c.name, when), fmt.Sprintf("%v: %s", rep, strings.Join(bad, "; ")), rep)
 		}
 		g.Release()
 		bx.Quiesce(idx, 2*time.Second)
-		lastKind += "+merge-introduced-afterwards"
+		if c.pileUp {
+			lastKind += "+merged-in-memory-and-persisted-afterwards"
+		} else {
+			lastKind += "+merge-introduced-afterwards"
+		}
 	}
 	r.Eval(1)
 	if bad := m.Check(idx, ids, keys); len(bad) > 0 {
